@@ -50,6 +50,15 @@ def _alphabet():
     syms["SimpleRNN_" + sfx] = ("SimpleRNN", 3, 2, dict(units=2, use_bias=ub))
     syms["LSTM_" + sfx] = ("LSTM", 3, 2, dict(units=2, use_bias=ub))
     syms["GRU_" + sfx] = ("GRU", 3, 2, dict(units=2, use_bias=ub, reset_after=False))
+  # Bidirectional wrappers: default (backward layer derived from the forward one) and with an explicit, differently
+  # configured backward_layer (its own name, no bias): the wrapper is selected by the "QBidirectional" class entry or by
+  # the wrapper's name and one configuration serves both directions
+  syms["Bidirectional_lstm"] = ("Bidirectional", 3, 2, dict(inner=("LSTM", dict(units=2))))
+  syms["Bidirectional_gru_n"] = ("Bidirectional", 3, 2, dict(inner=("GRU", dict(units=2, use_bias=False, reset_after=False))))
+  syms["Bidirectional_rnn_bw"] = ("Bidirectional", 3, 2, dict(inner=("SimpleRNN", dict(units=2)),
+                                                             backward=("SimpleRNN", dict(units=2, use_bias=False, go_backwards=True))))
+  syms["Bidirectional_lstm_bw"] = ("Bidirectional", 3, 2, dict(inner=("LSTM", dict(units=2, use_bias=False)),
+                                                              backward=("LSTM", dict(units=2, go_backwards=True))))
   syms["AveragePooling2D"] = ("AveragePooling2D", 4, 4, dict(pool_size=2))
   syms["GlobalAveragePooling2D"] = ("GlobalAveragePooling2D", 4, 2, {})
   syms["BatchNormalization"] = ("BatchNormalization", None, None, {})
@@ -64,7 +73,8 @@ def _alphabet():
 
 
 ALPHABET = _alphabet()
-QUICK_SYMS = [s for s in ALPHABET if s.split("_")[-1] in ("br", "nl", "b") or "_" not in s or s.startswith("Activation")]
+QUICK_SYMS = [s for s in ALPHABET if s.split("_")[-1] in ("br", "nl", "b") or "_" not in s or s.startswith("Activation")
+              or s == "Bidirectional_rnn_bw"]
 SHAPES = {2: (5,), 3: (4, 3), 4: (5, 5, 3)}
 WEIGHT_KEYS = {
     "Dense": ["kernel_quantizer", "bias_quantizer"], "Conv1D": ["kernel_quantizer", "bias_quantizer"],
@@ -73,6 +83,7 @@ WEIGHT_KEYS = {
     "SimpleRNN": ["kernel_quantizer", "recurrent_quantizer", "bias_quantizer"],
     "LSTM": ["kernel_quantizer", "recurrent_quantizer", "bias_quantizer"],
     "GRU": ["kernel_quantizer", "recurrent_quantizer", "bias_quantizer"],
+    "Bidirectional": ["kernel_quantizer", "recurrent_quantizer", "bias_quantizer"],
     "AveragePooling2D": ["average_quantizer"], "GlobalAveragePooling2D": ["average_quantizer"],
 }
 MODES = ["class", "absent", "name", "name+class", "partialname+class"]
@@ -156,6 +167,17 @@ def enumerate_cases(tier, seed):
           continue
         for modes in (["class", "class"], ["name+class", "absent"], ["absent", "name"], ["partialname+class", "class"]):
           out.append(dict(kind="chain", seq=[a, b], in_rank=in_rank, modes=modes, bits=4, transfer=True, form="functional"))
+  # enable_bn_folding=True on programs with nothing to fold (no Conv2D / DepthwiseConv2D directly followed by a
+  # BatchNormalization): the option must change nothing - in particular the requested weight transfer still happens
+  def _foldable(seq):
+    return any(ALPHABET[a][0] in ("Conv2D", "DepthwiseConv2D") and ALPHABET[b][0] == "BatchNormalization"
+               for a, b in zip(seq, seq[1:]))
+  for c in list(out):
+    if c["kind"] == "chain" and c["transfer"] and c["form"] == "functional" and c["bits"] == 4 and not _foldable(c["seq"]) \
+        and c["modes"][0] in ("class", "name+class") and (len(c["seq"]) == 1 or c["modes"] == ["class", "class"]):
+      if tier == "quick" and len(c["seq"]) == 2 and not any(ALPHABET[x][0] == "BatchNormalization" for x in c["seq"]):
+        continue   # quick: the near misses (a BatchNormalization that does not follow a convolution) only
+      out.append(dict(c, fold=True))
   if tier == "thorough":
     core = ["Dense_br", "Conv2D_br", "DepthwiseConv2D_nl", "BatchNormalization", "Activation_relu", "ReLU", "Flatten",
             "GlobalAveragePooling2D", "SimpleRNN_b", "LSTM_n", "AveragePooling2D", "LeakyReLU"]
@@ -184,7 +206,12 @@ def build_model(case):
   layers = []
   for s, n in zip(case["seq"], names):
     cls, _, _, kw = ALPHABET[s]
-    layers.append(getattr(L, cls)(name=n, **kw))
+    if cls == "Bidirectional":
+      fw = getattr(L, kw["inner"][0])(name=n + "_fw", **kw["inner"][1])
+      bw = getattr(L, kw["backward"][0])(name=n + "_bw", **kw["backward"][1]) if "backward" in kw else None
+      layers.append(L.Bidirectional(fw, backward_layer=bw, name=n))
+    else:
+      layers.append(getattr(L, cls)(name=n, **kw))
     if case.get("frozen"):
       layers[-1].trainable = False
   if case["kind"] == "diamond":
@@ -267,6 +294,20 @@ def ref_convert(cls, cfg, qdict, bits):
       c["activation"] = "quantized_tanh(%d)" % bits
     elif a == "sigmoid":
       c["activation"] = "quantized_sigmoid(%d)" % bits
+  if cls == "Bidirectional":
+    # one entry (wrapper name, else "QBidirectional") serves both directions; each wrapped rnn becomes its Q class with
+    # the entry's quantizers exactly as a stand-alone rnn selected by that entry would
+    if not isinstance(entry, dict) or entry.get("kernel_quantizer") is None:
+      return None
+    for part in ("layer", "backward_layer"):
+      if part not in cfg:
+        continue
+      inner = cfg[part]
+      sub = ref_convert(inner["class_name"], inner["config"], {inner["config"]["name"]: entry}, bits)
+      inner["class_name"], inner["config"] = sub
+      if "registered_name" in inner:
+        inner.pop("registered_name")
+    return "QBidirectional", cfg
   if cls in WEIGHT_KEYS:
     if not isinstance(entry, dict):
       return None
@@ -326,6 +367,11 @@ def _norm(o):
 
 def _qstrs(layer):
   out = []
+  if layer.__class__.__name__ == "QBidirectional":
+    # both directions, each with its cell's activation
+    for part in (layer.forward_layer, layer.backward_layer):
+      out += [part.__class__.__name__] + (_qstrs(part) if hasattr(part, "get_quantizers") else ["<not quantized>"])
+    return out
   if hasattr(layer, "get_quantizers"):
     out += [str(q) for q in layer.get_quantizers()]
   act = getattr(layer, "activation", None) if not hasattr(layer, "cell") else layer.cell.activation
@@ -358,7 +404,8 @@ def run_case(case):
   json_before = model.to_json()
   w_before = [w.copy() for w in model.get_weights()]
   try:
-    qmodel = qutils.model_quantize(model, qdict, case["bits"], transfer_weights=case["transfer"])
+    kw = {"enable_bn_folding": True} if case.get("fold") else {}
+    qmodel = qutils.model_quantize(model, qdict, case["bits"], transfer_weights=case["transfer"], **kw)
   except Exception as e:  # pylint: disable=broad-except
     culprit = [ALPHABET[s][0] for s, n in zip(case["seq"], names)
                if ref_convert(ALPHABET[s][0], model.get_layer(n).get_config(), qdict, case["bits"]) is not None]
@@ -407,7 +454,10 @@ def run_case(case):
             ql.__class__.__name__, wcls), cls)
         continue
       try:
-        exp = getattr(qkeras, wcls).from_config(copy.deepcopy(wcfg))
+        co = {}
+        qutils._add_supported_quantized_objects(co)  # pylint: disable=protected-access
+        with tf.keras.utils.custom_object_scope(co):
+          exp = getattr(qkeras, wcls).from_config(copy.deepcopy(wcfg))
       except Exception as e:  # pylint: disable=broad-except
         bad("reference-build", "harness could not build the expected %s: %s" % (wcls, e), cls)
         continue
